@@ -22,7 +22,7 @@ type LuaKeyEntry struct {
 
 type LuaKeysCase struct {
 	Entries []LuaKeyEntry `json:"entries"`
-	Nested  bool       `json:"nested"` // the table is the value of a key of an outer table
+	Nested  bool          `json:"nested"` // the table is the value of a key of an outer table
 }
 
 func genLuaKeys(t *rapid.T) LuaKeysCase {
